@@ -37,6 +37,13 @@ func c11ForceProps(b []byte) {
 	}
 }
 
+func Harness_C11_force_len0to2() {
+	n := v.Choice(3)
+	b := v.NondetBytes(n)
+	c11ForceProps(b)
+	v.Reach("C11.force.end")
+}
+
 func Harness_C11_force_len0to3() {
 	n := v.Choice(4)
 	b := v.NondetBytes(n)
